@@ -918,6 +918,11 @@ def get_method(it, obj, name):
     def B(fn):
         return BuiltinVal(f"{type(obj).__name__}.{name}", fn)
 
+    if isinstance(obj, SV) and isinstance(obj.ty, TOpaque):
+        # methods of modelled opaque values (e.g. ndarray.reshape) are supplied by the contract
+        h = getattr(it, "opaque_methods", {}).get((obj.ty.name, name))
+        if h is not None:
+            return B(lambda it_, a, k: h(it_, obj, a, k))
     if isinstance(obj, SymDict):
         d = obj
         if name == "get":
